@@ -336,7 +336,9 @@ def oracle_c05(w, quiescent=True):
         got = complete_at.get(vid, [])
         if len(got) > 1:
             out.append(('double-complete', f'event {vid} ({names.get(vid)}): {len(got)} complete events'))
-        drained = all(m in disp for m in clos)
+        # drained = every member was dispatched and none of them still has a suspended handler (a handler waiting for
+        # an event nobody fires keeps its event - and therefore the closure - unfinished for ever: nothing is owed)
+        drained = all(m in disp and not getattr(w.events.get(m), 'waitingHandlers', 0) for m in clos)
         if got:
             late = [m for m in clos if m not in disp or lastidx.get(m, -1) > got[0]]
             if late:
